@@ -25,10 +25,15 @@ pub fn run_case(rep: &mut Report, cfg: &EncCfg, front: Front, recipe: &PcmRecipe
     rep.count("declared_total", cfg.declare_total);
     rep.count("start_offset", start);
     let junk: Vec<u8> = (0..start).map(|i| (i * 37 + 11) as u8).collect();
+    // a third of the cases write through a sink that performs (legal) short writes
+    let hc = crate::report::hash_str(&format!("{cfg:?}{recipe:?}"));
+    let max_write = if record && hc % 3 == 0 { [1usize, 5, 64, 1000][(hc / 3 % 4) as usize] } else { 0 };
+    rep.count("sink", if max_write == 0 { "whole-writes".to_string() } else { format!("short-writes<={max_write}") });
     let replay = || replay_json(cfg, front, recipe, start);
     let obs = mon::observe(|| {
         let mut m = Mem::with_data(junk.clone());
         m.record = record;
+        m.max_write = max_write;
         m.pos = start as u64;
         let r = encode_into(&mut m, cfg, front, &pcm, &[]);
         (r, m)
